@@ -16,7 +16,15 @@ No interpretation happens here except:
     name %1 that is not a Python identifier (same bindings, same ValueError on a wrong length);
   * `x[:, i] = e` becomes SSetCol (x fresh, as for the other mutations);
   * numpy's dtype classes used as values (`np.float32`) become the opaque constant "<np.float32>";
-    what consumes them (`np.result_type`, `.astype`, `dtype=`) is given by specification in the templates."""
+    what consumes them (`np.result_type`, `.astype`, `dtype=`) is given by specification in the templates.
+  * `a in e` / `a not in e` for a non-literal e become calls of the builtin "in";
+  * stateful local objects: a name bound to `Cls(...)`, Cls an imported capitalised name (a constructor: a new
+    object nobody else holds), that has not escaped (Fresh, kind "object") may receive method calls that mutate
+    it.  PyLite has no store, so such a call, which must be a whole statement `x.m(args)` / `t = x.m(args)`,
+    becomes `x, %r = meth!:m(x, args); t = %r`: the callee "meth!:m" (given by specification in the template)
+    returns the receiver's new state and the result.  `if c in x.m(args):` with a constant c is first hoisted
+    to `x, %t = meth!:m(x, args); if c in %t:` (the call is the first thing the test evaluates).  A method call
+    on such an object anywhere else in an expression is outside the fragment."""
 import ast
 import os
 from fractions import Fraction
@@ -93,7 +101,35 @@ class Translator:
             return None if base is None else base + "." + node.attr
         return None
 
-    def call(self, e):
+    def fresh_object(self, node):
+        return isinstance(node, ast.Name) and node.id not in self.modules and self.cur_state.get(node.id) == "object"
+
+    def obj_call(self, s, state):
+        """s is `x.m(args)` or `t = x.m(args)` with x a fresh local object -> (target or None, the call)"""
+        if isinstance(s, ast.Expr):
+            t, e = None, s.value
+        elif isinstance(s, ast.Assign) and len(s.targets) == 1:
+            t, e = s.targets[0], s.value
+        else:
+            return None
+        if (isinstance(e, ast.Call) and isinstance(e.func, ast.Attribute) and isinstance(e.func.value, ast.Name)
+                and e.func.value.id not in self.modules and state.get(e.func.value.id) == "object"):
+            if t is not None and not isinstance(t, (ast.Name, ast.Tuple, ast.List)):
+                return None
+            return t, e
+        return None
+
+    def hoisted_test(self, test, state):
+        """`c in x.m(args)` / `c not in x.m(args)`, c a constant, x a fresh local object -> (negated, c, call)"""
+        if (isinstance(test, ast.Compare) and len(test.ops) == 1 and isinstance(test.ops[0], (ast.In, ast.NotIn))
+                and isinstance(test.left, ast.Constant)):
+            e = test.comparators[0]
+            if (isinstance(e, ast.Call) and isinstance(e.func, ast.Attribute) and isinstance(e.func.value, ast.Name)
+                    and e.func.value.id not in self.modules and state.get(e.func.value.id) == "object"):
+                return isinstance(test.ops[0], ast.NotIn), test.left, e
+        return None
+
+    def call(self, e, mut=False):
         f = e.func
         pos = list(e.args)
         if any(k.arg is None for k in e.keywords):
@@ -138,6 +174,11 @@ class Translator:
             name = self.dotted(f)
             if name is not None:
                 return "(ECall %s %s)" % (cstr(name + suffix), lst(args))
+            if mut:
+                return "(ECall %s %s)" % (cstr("meth!:" + f.attr + suffix), lst([self.expr(f.value)] + args))
+            if self.fresh_object(f.value):
+                raise Unsupported("method call on the local object %s inside an expression (it may change the object)"
+                                  % f.value.id)
             return "(ECall %s %s)" % (cstr("meth:" + f.attr + suffix), lst([self.expr(f.value)] + args))
         raise Unsupported("callee " + ast.dump(f)[:100])
 
@@ -189,9 +230,12 @@ class Translator:
                     if not (isinstance(right, ast.Constant) and right.value is None):
                         raise Unsupported("is <non-None>")
                     parts.append("(EIsNone %s %s)" % (expr(left), "true" if isinstance(op, ast.IsNot) else "false"))
+                elif isinstance(op, (ast.In, ast.NotIn)) and not isinstance(right, (ast.List, ast.Tuple)):
+                    if len(e.ops) > 1:
+                        raise Unsupported("chained in")
+                    t_ = "(ECall %s %s)" % (cstr("in"), lst([expr(left), expr(right)]))
+                    parts.append("(ENot %s)" % t_ if isinstance(op, ast.NotIn) else t_)
                 elif isinstance(op, (ast.In, ast.NotIn)):
-                    if not isinstance(right, (ast.List, ast.Tuple)):
-                        raise Unsupported("in <non-literal>")
                     parts.append("(EIn %s %s %s)" % (expr(left), lst([expr(x) for x in right.elts]),
                                                      "true" if isinstance(op, ast.NotIn) else "false"))
                 elif type(op) in CMP:
@@ -245,6 +289,25 @@ class Translator:
     def stmts(self, body):
         out = []
         for pos_, s in enumerate(body):
+            self.cur_state = getattr(s, "_fresh", {})
+            oc = self.obj_call(s, self.cur_state)
+            if oc is not None:
+                # x.m(args) on a fresh local object: x, %r = meth!:m(x, args); target = %r
+                t, e = oc
+                out.append("SAssign %s %s" % (lst([cstr(e.func.value.id), cstr("%r")]), self.call(e, mut=True)))
+                if t is not None:
+                    out.append("SAssign %s (EVar %s)" % (lst([cstr(n) for n in target_names(t)]), cstr("%r")))
+                continue
+            if isinstance(s, ast.If):
+                ht = self.hoisted_test(s.test, self.cur_state)
+                if ht is not None:
+                    neg, c, e = ht
+                    out.append("SAssign %s %s" % (lst([cstr(e.func.value.id), cstr("%t")]), self.call(e, mut=True)))
+                    test = "(ECall %s %s)" % (cstr("in"), lst([self.expr(c), "(EVar %s)" % cstr("%t")]))
+                    if neg:
+                        test = "(ENot %s)" % test
+                    out.append("SIf %s %s %s" % (test, self.stmts(s.body), self.stmts(s.orelse)))
+                    continue
             if (isinstance(s, ast.Assign) and len(s.targets) == 1 and isinstance(s.targets[0], ast.Name)
                     and isinstance(s.value, ast.GeneratorExp)):
                 # x = (generator): materialised as a list.  Equivalent only if the generator is consumed
@@ -382,6 +445,9 @@ class Fresh:
     def kind(self, e):
         if isinstance(e, (ast.List, ast.ListComp)):
             return "list"
+        if (isinstance(e, ast.Call) and isinstance(e.func, ast.Name) and e.func.id in self.tr.modules
+                and e.func.id[:1].isupper() and not any(isinstance(a, ast.Starred) for a in e.args)):
+            return "object"      # Cls(...), Cls an imported class: a new object that nobody else holds
         if isinstance(e, ast.Constant) and e.value is None:
             return "none"        # not an object that can be mutated; joins with a fresh list / array
         if isinstance(e, ast.Call) and self.tr.dotted(e.func) in FRESH_ARRAY_CALLS_KW:
@@ -405,6 +471,11 @@ class Fresh:
             pass                 # x is None: no alias
         elif isinstance(e, ast.Subscript) and isinstance(e.value, ast.Name):
             self.escaping(e.slice, out)
+        elif isinstance(e, ast.BinOp):
+            # x.a as an operand of arithmetic: the result is a new object, no alias of x survives
+            for c in (e.left, e.right):
+                if not (isinstance(c, ast.Attribute) and isinstance(c.value, ast.Name)):
+                    self.escaping(c, out)
         elif (isinstance(e, ast.Call) and isinstance(e.func, ast.Name) and e.func.id == "len" and len(e.args) == 1
               and isinstance(e.args[0], ast.Name) and not e.keywords):
             pass
@@ -435,9 +506,42 @@ class Fresh:
         if state.get(x) not in kinds:
             raise Unsupported("%s of %s, which may be aliased (not a fresh %s)" % (what, x, "/".join(kinds)))
 
+    def call_args_escaping(self, e, out):
+        for a in e.args:
+            self.escaping(a, out)
+        for k in e.keywords:
+            self.escaping(k.value, out)
+
     def block(self, body, state, frozen):
         for s in body:
             esc = set()
+            s._fresh = dict(state)       # what the translator may rely on at this statement
+            oc = self.tr.obj_call(s, state)
+            if oc is not None:
+                # x.m(args), x a fresh local object: it stays fresh unless it is passed to its own method
+                t, e = oc
+                x = e.func.value.id
+                self.call_args_escaping(e, esc)
+                if x in esc or x in frozen:
+                    raise Unsupported("method call on %s, which may be aliased" % x)
+                self.drop(state, esc)
+                if t is not None:
+                    self.drop(state, target_names(t))
+                continue
+            if isinstance(s, ast.If) and self.tr.hoisted_test(s.test, state) is not None:
+                _, _, e = self.tr.hoisted_test(s.test, state)
+                x = e.func.value.id
+                self.call_args_escaping(e, esc)
+                if x in esc or x in frozen:
+                    raise Unsupported("method call on %s, which may be aliased" % x)
+                self.drop(state, esc)
+                a = dict(state)
+                b = dict(state)
+                self.block(s.body, a, frozen)
+                self.block(s.orelse, b, frozen)
+                state.clear()
+                state.update(self.join(a, b))
+                continue
             if isinstance(s, ast.Assign):
                 t = s.targets[0]
                 self.escaping(s.value, esc)
@@ -541,8 +645,9 @@ def translate(path, names):
             params = [x.arg for x in a.args]
             tr.function = n
             tr.locals = set(params) | {x.id for x in ast.walk(n) if isinstance(x, ast.Name) and isinstance(x.ctx, ast.Store)}
+            tr.cur_state = {}
+            Fresh(tr).block([s for s in n.body], {}, frozenset())     # also records the state at each statement
             body = tr.stmts(n.body)
-            Fresh(tr).block([s for s in n.body], {}, frozenset())
             ident = qual.replace(".", "_")
             found[qual] = "Definition src_%s : func :=\n  {| f_params := %s;\n     f_body := %s |}.\n" % (
                 ident, lst([cstr(p) for p in params]), body)
